@@ -415,6 +415,65 @@ def run_life(rep: Report, prog: Program, tier: str) -> None:
         return p
     scenario("send() only while open; repeated transitions are silent", fn_send_guard)
 
+    # 9. channels created and closed before the association is up; the association is "established" twice (repeated COOKIE-ECHO)
+    def fn_before_up(sim: Sim, explicit_id: Optional[int]) -> List[str]:
+        a, b = sim.pair()
+        a._association_state = "COOKIE_WAIT"
+        b._association_state = "CLOSED"
+        early = sim.create(a, label="early", id=explicit_id)
+        keep = sim.create(a, label="keep")
+        sim.call(early, "close")
+        p = []
+        if sim.get(early, "readyState") != "closed" or events_of(early, "close") != 1:
+            p.append(f"channel closed before the association is up is {sim.get(early, 'readyState')} with {events_of(early, 'close')} close event(s)")
+        if explicit_id is not None and explicit_id in a._data_channels:
+            p.append(f"id {explicit_id} of the closed channel is still registered")
+        for t in (a, b):
+            sim.call(t, "_set_state", "ESTABLISHED")
+        sim.pump()
+        if sim.get(keep, "readyState") != "open":
+            p.append(f"the channel that was kept is {sim.get(keep, 'readyState')} after the association came up")
+        if explicit_id is not None:
+            try:
+                again = sim.create(a, label="again", id=explicit_id)
+            except Raised as ex:
+                return p + [f"re-creating a channel with the freed id {explicit_id} raises {ex.name}"]
+            sim.pump()
+            if sim.get(again, "readyState") != "open":
+                p.append(f"a channel re-created with id {explicit_id} is {sim.get(again, 'readyState')}")
+            seen = [sim.get(r, "label") for r in remote_of(sim, b) if sim.get(r, "id") == explicit_id]
+            if seen != ["again"]:
+                p.append(f"datachannel events on the peer for id {explicit_id}: {seen} (expected exactly the re-created one)")
+        if any(sim.get(r, "label") == "early" for r in remote_of(sim, b)):
+            p.append("the peer was told about the channel that was closed before the association came up")
+        return p
+    scenario("in-band channel with an explicit id closed before the association is up, id reused", lambda sim: fn_before_up(sim, 4))
+    scenario("in-band channel without id closed before the association is up", lambda sim: fn_before_up(sim, None))
+
+    def fn_established_twice(sim: Sim) -> List[str]:
+        a, b = sim.pair()
+        b._association_state = "CLOSED"
+        n1 = sim.create(b, label="n1", negotiated=True, id=10)
+        n2 = sim.create(b, label="n2", negotiated=True, id=12)
+        sim.call(b, "_set_state", "ESTABLISHED")
+        sim.pump()
+        p = []
+        if sim.get(n1, "readyState") != "open" or sim.get(n2, "readyState") != "open":
+            p.append(f"negotiated channels are {sim.get(n1, 'readyState')} / {sim.get(n2, 'readyState')} once the association is up")
+        sim.call(n1, "close")                      # -> closing, waits for the reset handshake
+        before = sim.get(n1, "readyState")
+        sim.call(b, "_set_state", "ESTABLISHED")   # a repeated COOKIE-ECHO re-enters ESTABLISHED
+        if ORDER.index(sim.get(n1, "readyState")) < ORDER.index(before):
+            p.append(f"re-entering ESTABLISHED moved a {before} channel back to {sim.get(n1, 'readyState')}")
+        sim.pump()
+        for c in (n1, n2):
+            if events_of(c, "open") != 1:
+                p.append(f"channel {sim.get(c, 'label')} got {events_of(c, 'open')} open events")
+        if sim.get(n2, "readyState") != "open":
+            p.append(f"the untouched channel is {sim.get(n2, 'readyState')}")
+        return p
+    scenario("association enters ESTABLISHED twice while a negotiated channel is closing", fn_established_twice)
+
 
 def run_policy(rep: Report, prog: Program, PROP_: str, RULE_: str) -> None:
     """Each user message is handed to _send() with the reliability parameters of its own channel, whatever was flushed just before it."""
